@@ -85,7 +85,7 @@ class Spec:
                           batch_size=[len(next(iter(lat.values())))])
 
     def instance(self, case):
-        if case["src"] in ("lat", "flt"):
+        if case["src"] in ("lat", "flt", "tgt"):
             return self.from_lattice(case["cfg"], case["lat"])
         return self.gen(case["cfg"], case["B"], case["seed"])
 
@@ -224,8 +224,49 @@ class CVRPTW(CVRP):
                     "time_windows": [r[3] for r in rows], "durations": [r[4] for r in rows]}
         return st.lists(row(), min_size=B, max_size=B).map(pack)
 
+    sources = ("gen", "lat", "flt", "tgt", "tgt")
+
+    def tight(self, cfg, B):
+        """Boundary construction: windows and non-zero service durations built around a reference schedule so
+        that window ends are met with (near) equality along it and waiting / late arrivals are frequent."""
+        n = cfg["n"]
+        pt = st.tuples(st.integers(0, 15), st.integers(0, 15)).map(lambda p: [p[0] * 10.0, p[1] * 10.0])
+
+        @st.composite
+        def row(draw):
+            depot = draw(pt)
+            locs = draw(st.lists(pt, min_size=n, max_size=n))
+            order = draw(st.permutations(list(range(n))))
+            cuts = draw(st.lists(st.booleans(), min_size=n, max_size=n))
+            tws, durs = [None] * n, [None] * n
+            t, cur = 0.0, depot
+            need = 0.0
+            for k, i in enumerate(order):
+                if cuts[k]:
+                    t, cur = 0.0, depot
+                q = locs[i]
+                arr = t + math.hypot(q[0] - cur[0], q[1] - cur[1])
+                lo = float(max(0, math.floor(arr) + draw(st.integers(-30, 12))))
+                start = max(arr, lo)
+                hi = float(math.ceil(start) + draw(st.sampled_from([0, 0, 1, 2, 5])))
+                if hi <= lo:
+                    hi = lo + 1.0
+                dur = float(draw(st.integers(0, 25)))
+                tws[i], durs[i] = [lo, hi], dur
+                t, cur = start + dur, q
+                need = max(need, hi + dur + math.hypot(q[0] - depot[0], q[1] - depot[1]))
+            mt = float(max(cfg["max_time"], math.ceil(need) + 1))
+            return depot, locs, draw(eighths(n)), [[0.0, mt]] + tws, [0.0] + durs
+
+        def pack(rows):
+            # one depot closing time for the whole batch (the library assumes max_time is shared by a batch)
+            mt = max(r[3][0][1] for r in rows)
+            return {"depot": [r[0] for r in rows], "locs": [r[1] for r in rows], "demand": [r[2] for r in rows],
+                    "time_windows": [[[0.0, mt]] + r[3][1:] for r in rows], "durations": [r[4] for r in rows]}
+        return st.lists(row(), min_size=B, max_size=B).map(pack)
+
     def instance(self, case):
-        if case["src"] in ("lat", "flt"):
+        if case["src"] in ("lat", "flt", "tgt"):
             cfg = dict(case["cfg"], scale=False)
             return self.from_lattice(cfg, case["lat"])
         return super().instance(case)
@@ -406,12 +447,14 @@ class MTVRP(Spec):
     sources = ("gen", "lat", "flt")
 
     def cfg(self, tier):
-        return st.tuples(self.sizes(tier), st.sampled_from(MTVRP_VARIANTS + ["all", "all", "single_feat"])).map(
-            lambda t: {"n": t[0], "variant": t[1]})
+        return st.tuples(self.sizes(tier), st.sampled_from(MTVRP_VARIANTS + ["all", "all", "single_feat"]),
+                         st.sampled_from([1.0, 1.0, 0.5, 0.75, 2.0])).map(
+            lambda t: {"n": t[0], "variant": t[1], "speed": t[2]})
 
     def build(self, cfg):
         from rl4co.envs import MTVRPEnv
-        return MTVRPEnv(generator_params=dict(num_loc=cfg["n"], variant_preset=cfg["variant"]), check_solution=False)
+        return MTVRPEnv(generator_params=dict(num_loc=cfg["n"], variant_preset=cfg["variant"],
+                                              speed=cfg.get("speed", 1.0)), check_solution=False)
 
     def lattice(self, cfg, B, exact=True):
         """Hand-built instances in the documented reset format; features follow the preset letters."""
@@ -430,15 +473,19 @@ class MTVRP(Spec):
             lh = [0.0] + [0.0 if b else d for d, b in zip(dem, isb)]
             bh = [0.0] + [d if b else 0.0 for d, b in zip(dem, isb)]
             d0 = [math.hypot(p[0] - locs[0][0], p[1] - locs[0][1]) for p in locs]
+            sp = cfg.get("speed", 1.0)
             if f["T"]:
+                tws, sts = [], [0.0]
                 mt = 8.0
-                tws, sts = [[0.0, mt]], [0.0]
                 for j in range(1, n + 1):
                     s = draw(st.integers(0, 2)) / 8.0
-                    lo = draw(st.integers(math.ceil(d0[j] * 8) + 1, 32)) / 8.0
+                    first = math.ceil(d0[j] / sp * 8) + 1
+                    lo = draw(st.integers(first, first + 32)) / 8.0
                     hi = lo + draw(st.integers(1, 8)) / 8.0
                     tws.append([lo, hi])
                     sts.append(s)
+                    mt = max(mt, math.ceil(hi + s + d0[j] / sp) + 1.0)
+                tws = [[0.0, mt]] + tws
             else:
                 tws, sts = [[0.0, 1e30]] * (n + 1), [0.0] * (n + 1)
             lim = max(draw(st.integers(16, 40)) / 8.0, 2 * max(d0) + 0.125) if f["L"] else 1e30
@@ -464,7 +511,7 @@ class MTVRP(Spec):
             "service_time": t32(lat["service_time"]), "distance_limit": dl,
             "open_route": torch.tensor(lat["open_route"], dtype=torch.bool),
             "vehicle_capacity": torch.ones(B, 1), "capacity_original": torch.full((B, 1), 8.0),
-            "speed": torch.ones(B, 1),
+            "speed": torch.full((B, 1), float(cfg.get("speed", 1.0))),
         }, batch_size=[B])
 
     def bound(self, cfg, r):
@@ -518,6 +565,8 @@ def episode_cases(draw, tier, names, max_b=None, sources=None):
     case = {"env": name, "cfg": cfg, "B": B, "src": src, "seed": draw(st.integers(0, 2 ** 31 - 1))}
     if src in ("lat", "flt"):
         case["lat"] = draw(spec.lattice(cfg, B, exact=(src == "lat")))
+    elif src == "tgt":
+        case["lat"] = draw(spec.tight(cfg, B))
     case["rows"] = [draw(row_strategy()) for _ in range(B)]
     return case
 
@@ -646,9 +695,8 @@ class FFSP(Spec):
         return FFSPEnv(generator_params=dict(num_stage=cfg["stages"], num_machine=cfg["mas"], num_job=cfg["jobs"],
                                              min_time=1, max_time=cfg["max_time"]))
 
-    def env(self, cfg):
-        # one env object serves one episode at a time (per-object tables / step counter): never cached
-        return self.build(cfg)
+    # NOTE: the env object is cached like all others: it is reused *sequentially* for many episodes with
+    # different batch sizes (legitimate usage); it still serves only one episode at a time.
 
     def lattice(self, cfg, B, exact=True):
         mt = cfg["stages"] * cfg["mas"]
@@ -770,3 +818,55 @@ ROUTING = ["tsp", "atsp", "cvrp", "sdvrp", "cvrptw", "svrp", "op", "pctsp", "spc
 SCHEDULING = ["fjsp", "jssp", "ffsp", "smtwtp"]
 GRAPH = ["flp", "mcp"]
 ALL_ENVS = ROUTING + SCHEDULING + GRAPH
+
+
+class MDCPDP(Spec):
+    name = "mdcpdp"
+    has_depot_action = False  # several depots; no single 'action 0' convention
+
+    def sizes(self, tier):
+        return (st.integers(1, 4) if tier == "quick" else st.integers(1, 8)).map(lambda k: 2 * k)
+
+    def cfg(self, tier):
+        return st.fixed_dictionaries({
+            "n": self.sizes(tier), "depots": st.integers(1, 4), "dist_mode": st.sampled_from(["L2", "L2", "L1"]),
+            "reward_mode": st.sampled_from(["minmax", "minsum", "lateness"]),
+            "problem_mode": st.sampled_from(["close", "open"]), "depot_mode": st.sampled_from(["multiple", "single"]),
+            "max_cap": st.integers(1, 3), "lw": st.sampled_from([1.0, 0.5, 0.0]),
+        })
+
+    def build(self, cfg):
+        from rl4co.envs import MDCPDPEnv
+        return MDCPDPEnv(generator_params=dict(num_loc=cfg["n"], num_depot=cfg["depots"], depot_mode=cfg["depot_mode"],
+                                               min_capacity=1, max_capacity=cfg["max_cap"],
+                                               min_lateness_weight=cfg["lw"], max_lateness_weight=cfg["lw"]),
+                         dist_mode=cfg["dist_mode"], reward_mode=cfg["reward_mode"], problem_mode=cfg["problem_mode"],
+                         start_mode="order")
+
+    def lattice(self, cfg, B, exact=True):
+        n, D = cfg["n"], cfg["depots"]
+        return st.fixed_dictionaries({
+            "locs": st.lists(coords(n), min_size=B, max_size=B),
+            "depot": st.lists(coords(D), min_size=B, max_size=B),
+            "capacity": st.lists(st.lists(st.integers(1, cfg["max_cap"]), min_size=D, max_size=D), min_size=B, max_size=B),
+        })
+
+    def from_lattice(self, cfg, lat):
+        B = len(lat["locs"])
+        return TensorDict({"locs": t32(lat["locs"]), "depot": t32(lat["depot"]),
+                           "capacity": torch.tensor(lat["capacity"], dtype=torch.int64),
+                           "lateness_weight": torch.full((B, 1), float(cfg["lw"]))}, batch_size=[B])
+
+    def bound(self, cfg, r):
+        return cfg["n"] + 2 * cfg["depots"] - 1
+
+    def judge_cfg(self, cfg):
+        return cfg
+
+    def slice_of(self, cfg):
+        return f"{cfg['problem_mode']}|{cfg['reward_mode']}|{'multi' if cfg['depots'] > 1 else 'single'}"
+
+
+SPECS["mdcpdp"] = MDCPDP()
+ROUTING.append("mdcpdp")
+ALL_ENVS.append("mdcpdp")
